@@ -1437,7 +1437,8 @@ commands_block(
     SetFieldStmt,
     CreateAnnotationValueStmt,
     AlterAnnotationValueStmt,
-    CreateConcreteConstraintStmt)
+    CreateConcreteConstraintStmt,
+    AlterConcreteConstraintStmt)
 
 
 class CreateScalarTypeStmt(Nonterm):
